@@ -241,7 +241,11 @@ def _run_variant(args) -> dict:
     repo, name, pids, kind, idx, baseline = args
     d = _scratch(repo)
     try:
-        if kind == "patch":
+        if kind == "neutral":
+            from .neutral import alpha_rename_tree, unparse_tree
+
+            (alpha_rename_tree if idx == "alpha" else unparse_tree)(d)
+        elif kind == "patch":
             p = subprocess.run(["patch", "-p1", "--no-backup-if-mismatch", "-s", "-i", idx], cwd=d, capture_output=True, text=True)
             if p.returncode != 0:
                 return {"name": name, "kind": kind, "status": "skipped", "why": "patch does not apply to the current tree"}
@@ -281,6 +285,8 @@ def selftest_for(pid: str, repo: str, jobs: int = 16) -> dict:
     for sname, info in sorted(catches.items()):
         if pid in info.get("caught_by", []):
             work.append((f"seeded:{sname}", [pid], "patch", os.path.join(seeded_dir, sname, "patch.diff")))
+    work.append(("neutral:alpha-rename-all-locals", [pid], "neutral", "alpha"))
+    work.append(("neutral:re-render-with-ast.unparse", [pid], "neutral", "unparse"))
     keys, err = failing_keys(pid, repo)
     if err:
         raise AnalysisError(f"self-test baseline: {err}")
@@ -291,15 +297,15 @@ def selftest_for(pid: str, repo: str, jobs: int = 16) -> dict:
         for r in ex.map(_run_variant, jobs_args):
             results.append(r)
     missed = [r["name"] for r in results if r["status"] == "done" and r["kind"] in ("mutant", "patch") and not r["fired"].get(pid)]
-    noisy = [r["name"] for r in results if r["status"] == "done" and r["kind"] == "twin" and r["fired"].get(pid)]
+    noisy = [r["name"] for r in results if r["status"] == "done" and r["kind"] in ("twin", "neutral") and r["fired"].get(pid)]
     return {
         "variants": len(results),
         "mutants_killed": len([r for r in results if r["status"] == "done" and r["kind"] == "mutant" and r["fired"].get(pid)]),
         "mutants_total": len([r for r in results if r["status"] == "done" and r["kind"] == "mutant"]),
         "seeded_patches_caught": len([r for r in results if r["status"] == "done" and r["kind"] == "patch" and r["fired"].get(pid)]),
         "seeded_patches_total": len([r for r in results if r["status"] == "done" and r["kind"] == "patch"]),
-        "twins_silent": len([r for r in results if r["status"] == "done" and r["kind"] == "twin" and not r["fired"].get(pid)]),
-        "twins_total": len([r for r in results if r["status"] == "done" and r["kind"] == "twin"]),
+        "twins_silent": len([r for r in results if r["status"] == "done" and r["kind"] in ("twin", "neutral") and not r["fired"].get(pid)]),
+        "twins_total": len([r for r in results if r["status"] == "done" and r["kind"] in ("twin", "neutral")]),
         "skipped": [r["name"] + ": " + r["why"] for r in results if r["status"] == "skipped"],
         "missed": missed,
         "noisy": noisy,
